@@ -294,6 +294,8 @@ func c06History(c *Ctx, r *mon.Rng, mem *mon.Mem, hi int, shapes *mon.Distinct) 
 			"state": DumpState(&cpu.States, cpu.HALT), "model_IFF1": mIFF1, "model_IFF2": mIFF2, "model_IM": mIM, "history_index": hi})
 	}
 	depth := 0
+	var reRaisePending *irqKind
+	reRaises := 0
 	for step := 0; step < length; step++ {
 		// choose the next event
 		ev := c06Ev(r.Intn(int(nEv)))
@@ -336,6 +338,10 @@ func c06History(c *Ctx, r *mon.Rng, mem *mon.Mem, hi int, shapes *mon.Distinct) 
 		}
 		// the data of a pending maskable request must fit the mode in force when it is examined
 		if pend != nil && !pend.NMI {
+			if len(pend.Data) == 0 && mIM != 1 {
+				pend.Data = []uint8{0xfe}
+				cpu.Interrupt = pend.make()
+			}
 			switch mIM {
 			case 0:
 				if !(pend.Data[0]&0xc7 == 0xc7 || (pend.Data[0] == 0xcd && len(pend.Data) == 3)) {
@@ -356,8 +362,42 @@ func c06History(c *Ctx, r *mon.Rng, mem *mon.Mem, hi int, shapes *mon.Distinct) 
 		preRC := rc
 		mem.ClearLog()
 		mem.Logging = true
+		// a device may raise the next request of the same kind while this one is
+		// being accepted (from the stack-write callback, through the public
+		// constructor): it must stay pending, not vanish with the accepted one
+		reRaised := false
+		if pend != nil && (pend.NMI || mIM == 1) && r.Intn(4) == 0 {
+			nmi := pend.NMI
+			mem.Hook = func(m *mon.Mem, a mon.Access) {
+				if a.Kind == 'W' && !reRaised {
+					reRaised = true
+					if nmi {
+						cpu.Interrupt = z80.NMIInterrupt()
+					} else {
+						cpu.Interrupt = z80.IM1Interrupt()
+					}
+				}
+			}
+		}
 		cpu.Step()
+		mem.Hook = nil
 		steps++
+		if reRaised {
+			// none of the tape's instructions writes memory: the write was the acceptance push
+			if cpu.Interrupt == nil {
+				fail(step, "a request raised (through the constructor) while the previous one of the same kind was being accepted is lost")
+				return
+			}
+			trace = append(trace, "  (same kind re-raised during the acceptance push)")
+			reRaisedKeep := *pend
+			if !pend.NMI {
+				reRaisedKeep.Data = nil
+			}
+			// judge this Step as the acceptance it is (the slot is emptied for the
+			// common code below), then put the new request back as pending
+			cpu.Interrupt = nil
+			reRaisePending = &reRaisedKeep
+		}
 		// what did the emulator do?
 		fetched := false
 		for _, a := range mem.Log {
@@ -422,6 +462,13 @@ func c06History(c *Ctx, r *mon.Rng, mem *mon.Mem, hi int, shapes *mon.Distinct) 
 			pend = nil
 			depth++
 			afterEI = false
+			if reRaisePending != nil {
+				pend = reRaisePending
+				reRaisePending = nil
+				cpu.Interrupt = pend.make()
+				pendSince = step
+				reRaises++
+			}
 			continue
 		case mustAccept && !mayDelay:
 			fail(step, fmt.Sprintf("pending %s not accepted at a Step boundary where it must be (IFF1=%v)", pend.String(), mIFF1))
@@ -652,7 +699,7 @@ func runC06(c *Ctx) {
 	c.R.Set("distinct_nontrivial", distinct.N()+shapes.N())
 	c.R.Set("exhaustive", false)
 	c.R.Set("exhaustive_over", "type{NMI,INT} x IM{0,1,2} x IFF1 x IFF2 x {running, parked on HALT} (48 control combinations, each with data samples; all 256 vector bytes in mode 2, 8 RST and CALL nn in mode 0)")
-	c.R.Set("rule", "(1) every control combination x boundary-biased data (PC=FFFF, SP in {0,1,2,FFFF}, stack bytes meeting PC): one Step with the request pending is judged by the abstract controller transcribed from the property (consumed?, handler address, IFF1/IFF2, SP-2, the two stack bytes = PC except in mode 0, no other register or memory change, no program fetch; refused: identical to the twin Step without a request and the request object untouched); (2) seeded histories of length 8..40 over {EI, DI, NOP, HALT, RETN, RETI, LD A,I, LD A,R, IM 0/1/2, INC B, raise NMI, raise INT} on an instruction tape, nesting depth <= 3, model stepped alongside (acceptance exactly when due, EI-delay of one instruction tolerated, RETI IFF tolerance, P/V of LD A,I = model IFF2, handler notifications exactly once per RETN/RETI); (3) ALL 1786 openings of the seven tables (implemented or not) x 16 states, a quarter of them with no handler registered: handlers silent except ED 45 (RETN once) / ED 4D (RETI once) - the unimplemented RETN mirrors ED 55/65/75/5D/6D/7D may at most notify RETN's handler - and RETN/RETI themselves equal to the reference model with and without handlers; half of the histories run without handlers. Distinct = distinct single-step cases (control, data) + distinct history shapes (event-kind sequences)")
+	c.R.Set("rule", "(1) every control combination x boundary-biased data (PC=FFFF, SP in {0,1,2,FFFF}, stack bytes meeting PC): one Step with the request pending is judged by the abstract controller transcribed from the property (consumed?, handler address, IFF1/IFF2, SP-2, the two stack bytes = PC except in mode 0, no other register or memory change, no program fetch; refused: identical to the twin Step without a request and the request object untouched); (2) seeded histories of length 8..40 over {EI, DI, NOP, HALT, RETN, RETI, LD A,I, LD A,R, IM 0/1/2, INC B, raise NMI, raise INT} on an instruction tape (in 1/4 of NMI / mode-1 acceptances the device re-raises the same kind through the public constructor from the stack-write callback: it must stay pending), nesting depth <= 3, model stepped alongside (acceptance exactly when due, EI-delay of one instruction tolerated, RETI IFF tolerance, P/V of LD A,I = model IFF2, handler notifications exactly once per RETN/RETI); (3) ALL 1786 openings of the seven tables (implemented or not) x 16 states, a quarter of them with no handler registered: handlers silent except ED 45 (RETN once) / ED 4D (RETI once) - the unimplemented RETN mirrors ED 55/65/75/5D/6D/7D may at most notify RETN's handler - and RETN/RETI themselves equal to the reference model with and without handlers; half of the histories run without handlers. Distinct = distinct single-step cases (control, data) + distinct history shapes (event-kind sequences)")
 	c.R.Assume("mode 0: the pushed return address is not judged here (C07's subject); requests with empty data in mode 0/2 or IM outside 0..2 get no verdict (C12)")
 	if len(cells) < 48 {
 		c.R.Inconclusive(fmt.Sprintf("only %d of 48 control cells observed", len(cells)))
